@@ -41,6 +41,8 @@ pub struct TState {
     tls_out: Vec<u8>,
     tls_plain_from: usize, // index of first message that travels inside TLS
     chunks: Vec<usize>,
+    cuts: Vec<usize>, // absolute offsets of the client stream at which a read must end
+    pos: usize,       // bytes of the client stream handed out so far
     chunk_i: usize,
     chunk_then: usize,
     short_writes: Vec<usize>,
@@ -118,6 +120,8 @@ impl TState {
             tls_out: Vec::new(),
             tls_plain_from: c["tls_from"].as_u64().unwrap_or(1) as usize,
             chunks: usz(&t["chunks"]),
+            cuts: usz(&t["cuts"]),
+            pos: 0,
             chunk_i: 0,
             chunk_then: t["then"].as_u64().unwrap_or(0) as usize,
             short_writes: usz(&t["short_writes"]),
@@ -342,11 +346,14 @@ impl TState {
         } else {
             self.chunk_then
         };
-        let cap = if chunk == 0 {
+        let mut cap = if chunk == 0 {
             want
         } else {
             std::cmp::min(want, chunk)
         };
+        if let Some(c) = self.cuts.iter().find(|c| **c > self.pos) {
+            cap = std::cmp::min(cap, *c - self.pos);
+        }
         let mut got: Vec<u8> = Vec::new();
         let tls_mode = self.tls.is_some();
         let upto = if tls_mode {
@@ -408,6 +415,7 @@ impl TState {
                 }
             }
         }
+        self.pos += got.len();
         let b = self.rec.borrow().bytes(&got);
         self.rec
             .borrow_mut()
